@@ -5,12 +5,14 @@ from harness.gen.trees import gen_tree, gen_text
 
 THEOREM_NOTE = ("Props/C13.lean: cell of item i (row-/column-major), every item in exactly one cell; refusal when the columns width or the room left by a "
                 "label is <= 0; zero columns; what render draws (drawColumns over rendered labels and items); placement of every item and label character "
-                "at rowTop/colLeft of its cell; row heights dominate; bands and rows disjoint with the spacing; layout within the requested width")
+                "at rowTop/colLeft of its cell; row heights dominate; bands and rows disjoint with the spacing; layout within the requested width"
+                ' Props/C13b.lean: the layout hypothesis is discharged from the render itself (RespectsWidth per widget kind), giving placement theorems with hypotheses on the inputs only.')
 ASSUMPTIONS = ASSUME_PY + ["placement theorems assume every drawn grid respects the width it was rendered for (LayoutOK): TextWidget by C11, labels by C11, nested unforced containers by C13_within_width; forced columns widths are outside the width clause",
                            "CenterWidget with a child wider than the width (negative draw column) is outside the model and not compared"]
 RULE = ("seeded random list containers of text items: 1..6 columns, spacing 0..4, 0..14 items wrapping to 0..5 lines (incl. empty items), numbering on/off with "
         "offsets (label width changing 9->10, 99->100), requested widths 1..70, both kinds, checked against the closed-form placement; plus random nested trees "
-        "(depth <= 3, forced widths, zero columns) compared with the model; non-trivial = >= 2 items placed or the layout refused")
+        "(depth <= 3, forced widths, zero columns) compared with the model; non-trivial = >= 2 items placed or the layout refused"
+        ' Later rounds: a render after a refused render of the same object; one widget object in several cells of an unnumbered list; per-node lines compared with the model.')
 
 WORDS = ["a", "bb", "ccc", "dddd", "eeeee", "x" * 9, "hello world", "one two three four", ""]
 LEAN_MODULES = ["C13", "C13b"]
